@@ -23,8 +23,87 @@ CAPS = {"quick": (900, 12), "thorough": (3600, 16)}
 SUITES = {
     "C01": {
         "quick": [("km", ["st_insert__u4f", "st_insert__s8_4a", "st_insert__s8_e", "st_insert__s4f_e",
-                          "st_remove__s8_4a", "st_remove__s8_8g0", "st_raw_replace_with__s8_8g0"])],
-        "thorough": [("km", ["st_*"])],
+                          "st_remove__s8_4a", "st_remove__s8_8g0", "st_remove__s8m0_4a", "st_remove_entry__s8_4one",
+                          "st_lookup__s8_8g0", "st_lookup__u8_3t", "st_clear__s8_8g4",
+                          "st_raw_replace_with__s8_8g0", "it_iter_mut__s8_4a",
+                          "zst_remove__old", "zst_remove__old2", "zst_insert__old", "en_raw_or_insert__u4f"])],
+        "thorough": [("km", ["st_*", "zst_*", "it_iter_mut__*", "it_values_mut__*", "en_raw_*", "en_vacant_insert__*"]),
+                     ("km-rel", ["st_insert__s8_4a", "st_remove__s8_8g0", "st_raw_replace_with__s8_8g0"]),
+                     ("km-r4", ["st_insert__s16_8", "st_insert__s8_8g0", "st_remove__s8_8g4"])],
+    },
+    "C02": {
+        "quick": [("km-cnt", ["cnt_insert__unsplit", "cnt_insert__split", "cnt_insert__split_empty", "cnt_insert__unallocated", "cnt_remove__split"]),
+                  ("km", ["st_lookup__s8_4a", "st_remove__s8_4a", "st_insert__u4f", "st_insert__u4ft", "en_vacant_insert__u4f",
+                          "en_raw_vacant_hashed__s8_4a", "en_occ_remove__s8_4one", "rt_retain__s8_e"])],
+        "thorough": [("km-cnt", ["cnt_insert__*", "cnt_remove__*"]),
+                     ("km", ["st_insert__*", "st_lookup__*", "st_remove__*", "en_vacant_insert__*", "en_raw_*", "en_occ_*", "rt_retain__*"])],
+    },
+    "C03": {
+        "quick": [("km-cnt", ["cnt_insert__unsplit", "cnt_insert__split", "cnt_insert__split_empty", "cnt_remove__split", "cnt_clear__split", "cnt_reserve__split"]),
+                  ("km", ["st_remove__s8_4one", "st_remove__s8m0_4a", "st_insert__s8_4a", "st_insert__s8_8g4", "st_clear__s8_e",
+                          "en_occ_remove__s8_4one", "rt_drain_filter__s8_4a_m0111_end", "rt_drain_filter__s8_8g4_m110_end",
+                          "it_drain__s8_4a_j1", "rt_retain__s8_8g0"])],
+        "thorough": [("km-cnt", ["cnt_*"]),
+                     ("km", ["st_remove__*", "st_insert__*", "st_clear__*", "en_occ_remove*", "rt_drain_filter__*", "it_drain__*", "rt_retain__*"]),
+                     ("km-r4", ["st_insert__s16_8", "st_insert__s8_8g0"])],
+    },
+    "C04": {
+        "quick": [("km-cnt", ["cnt_insert__unsplit", "cnt_insert__split", "cnt_insert__split_empty", "cnt_insert__unallocated",
+                              "cnt_shrink_to__split", "cnt_shrink_to__unsplit", "cnt_shrink_to_fit__split",
+                              "cnt_reserve__split", "cnt_reserve__unsplit", "cnt_try_reserve__split", "cnt_with_capacity", "cnt_remove__split"]),
+                  ("km", ["st_insert__s4f_e", "st_insert__u4ft", "cap_shrink_to_fit__s8_e", "cap_shrink_to__s16_4a", "rt_retain__s8m0_4a"])],
+        "thorough": [("km-cnt", ["cnt_*"]), ("km", ["st_insert__*", "cap_*", "rt_retain__*"]),
+                     ("km-r4", ["cap_shrink_to__s16_4a", "st_insert__s16_8"])],
+    },
+    "C05": {
+        "quick": [("km", ["st_remove__s8_8g0", "st_remove__s8_8g4", "st_raw_replace_with__s8_8g0", "st_raw_replace_with__s8_8g4",
+                          "rt_retain__s8_8g0", "rt_drain_filter__s8_8g0_m1110_end", "rt_drain_filter__s8_4a_m0111_end",
+                          "zst_remove__old", "zst_remove__old2", "zst_retain__old", "en_occ_remove__s8_8g4", "en_occ_replace_with__s8_8g0",
+                          "it_drain__s8_8g4_j1", "it_into_iter__s8_8g4_j1", "st_insert__s8_8g4"]),
+                  ("km-rel", ["st_raw_replace_with__s8_8g0", "st_remove__s8_8g0"])],
+        "thorough": [("km", ["st_*", "rt_*", "zst_*", "en_occ_*", "it_drain__*", "it_into_iter__*", "pan_raw_*"]),
+                     ("km-rel", ["st_raw_replace_with__*", "st_remove__*", "rt_retain__s8_8g0", "en_occ_replace_with__*"])],
+    },
+    "C07": {
+        "quick": [("km", ["pan_raw_replace_entry_with__s8_4a", "pan_raw_replace_entry_with__s8_8g0", "pan_raw_replace_entry_with__s8_8g4"])],
+        "thorough": [("km", ["pan_*"])],
+    },
+    "C08": {
+        "quick": [("km", ["it_iter__s8_4a_c0", "it_iter__s8_8g4_c1", "it_iter__s8_e_c1", "it_iter__u8_3t_c1", "it_keys_values__s8_8g4",
+                          "it_iter_mut__s8_8g4", "it_values_mut__s8_8g4", "it_into_iter__s8_4a_j1", "it_into_iter__s8_8g4_end",
+                          "it_into_iter__s8_e_end", "it_drain__s8_4a_j1", "it_drain__s8_8g4_j2f", "it_drain__s8_4a_end", "it_drain__u8_3t_endf"])],
+        "thorough": [("km", ["it_*"])],
+    },
+    "C09": {
+        "quick": [("km", ["rt_retain__s8_4a", "rt_retain__s8_8g0", "rt_retain__s8_e", "rt_retain__u8_3t",
+                          "rt_drain_filter__s8_4a_m0111_end", "rt_drain_filter__s8_4a_m1100_end", "rt_drain_filter__s8_4a_m1010_j1",
+                          "rt_drain_filter__s8_4a_m1101_j2f", "rt_drain_filter__s8_8g0_m1110_end", "rt_drain_filter__s8_8g4_m101_j1",
+                          "rt_drain_filter__u8_3t_m101_end", "rt_drain_filter__s8_e_m010_end", "zst_retain__old"])],
+        "thorough": [("km", ["rt_*", "zst_retain__*"])],
+    },
+    "C10": {
+        "quick": [("km-cnt", ["cnt_reserve__split", "cnt_reserve__unsplit", "cnt_try_reserve__split", "cnt_try_reserve__unsplit",
+                              "cnt_try_reserve__unallocated", "cnt_shrink_to__split", "cnt_shrink_to__unsplit", "cnt_shrink_to_fit__split", "cnt_with_capacity"]),
+                  ("km", ["cap_try_reserve__s8_4a", "cap_reserve__s8_e", "cap_shrink_to__s16_4a", "cap_shrink_to_fit__s8_e", "cap_with_capacity"])],
+        "thorough": [("km-cnt", ["cnt_*reserve*", "cnt_shrink*", "cnt_with_capacity"]), ("km", ["cap_*", "st_from_iter3"]),
+                     ("km-cnt-rel", ["cnt_try_reserve__split", "cnt_reserve__split"])],
+    },
+    "C12": {
+        "quick": [("km", ["en_dispatch__s8_8g0", "en_occ_read__s8_8g0", "en_occ_get_mut__s8_8g0", "en_occ_insert__s8_4a", "en_occ_remove__s8_8g0",
+                          "en_occ_replace_entry__s8_8g0", "en_occ_replace_key__s8_8g4", "en_occ_replace_with__s8_8g0", "en_occ_replace_with__s8_4one",
+                          "en_vacant_insert__u4f", "en_vacant_insert__s8_4a", "en_vacant_insert__s4f_e",
+                          "en_raw_insert__u4f", "en_raw_or_insert__u4f", "en_raw_and_modify__s8_8g0", "en_raw_vacant_hashed__s8_4a",
+                          "en_raw_occ_misc__s8_8g4", "st_raw_replace_with__s8_8g4"])],
+        "thorough": [("km", ["en_*", "st_raw_replace_with__*"])],
+    },
+    "C17": {
+        "quick": [("km-rel", ["st_raw_replace_with__s8_8g0", "st_insert__s4f_e", "st_remove__s8_8g0", "cap_try_reserve__s8_e", "zst_remove__old2", "it_drain__s8_4a_j1"]),
+                  ("km", ["st_raw_replace_with__s8_8g0", "st_insert__s4f_e", "st_remove__s8_8g0", "cap_try_reserve__s8_e", "zst_remove__old2", "it_drain__s8_4a_j1"]),
+                  ("km-cnt", ["cnt_try_reserve__split", "cnt_reserve__split", "cnt_insert__split_empty", "cnt_shrink_to__split"]),
+                  ("km-cnt-rel", ["cnt_try_reserve__split", "cnt_reserve__split", "cnt_insert__split_empty", "cnt_shrink_to__split"])],
+        "thorough": [("km-rel", ["st_*", "cap_*", "zst_*", "rt_retain__*", "en_occ_replace_with__*"]),
+                     ("km", ["st_*", "cap_*", "zst_*", "rt_retain__*", "en_occ_replace_with__*"]),
+                     ("km-cnt", ["cnt_*"]), ("km-cnt-rel", ["cnt_*"])],
     },
 }
 
